@@ -55,16 +55,16 @@ Definition d_snapshot (s : dstore) : dstore * val :=
   let (s3, v) := ds_validate s2 in
   (s3, VL [vstrs c; vstrs n; vstrs lg; VL (map rec_val (c ++ n)); VL (map log_val lg); validate_val E_IO v]).
 
-Fixpoint run_dir (obs_every : bool) (s : dstore) (ops : list op) : list val :=
+Fixpoint run_dir (v : variant) (obs_every : bool) (s : dstore) (ops : list op) : list val :=
   match ops with
   | [] => []
   | o :: rest =>
-      let (s1, r) := ds_step s o in
+      let (s1, r) := ds_step v s o in
       if obs_every || negb (nonempty rest) then
         let (s2, live) := d_snapshot s1 in
         let fresh := snd (d_snapshot (ds_reopen s2 MR)) in
-        VL [res_val r; live; if val_eqb fresh live then VN else fresh] :: run_dir obs_every s2 rest
-      else VL [res_val r; VN; VN] :: run_dir obs_every s1 rest
+        VL [res_val r; live; if val_eqb fresh live then VN else fresh] :: run_dir v obs_every s2 rest
+      else VL [res_val r; VN; VN] :: run_dir v obs_every s1 rest
   end.
 
 (** ------------------------------------------------------------------ sqlite store *)
@@ -81,20 +81,20 @@ Definition q_snapshot (s : sqlstore) : sqlstore * val :=
   let (s3, v) := sq_validate s2 in
   (s3, VL [vstrs c; vstrs n; vstrs lg; VL (map rec_val (c ++ n)); VL (map log_val lg); validate_val E_Type v]).
 
-Fixpoint run_sql (obs_every : bool) (s : sqlstore) (ops : list op) : list val :=
+Fixpoint run_sql (v : variant) (obs_every : bool) (s : sqlstore) (ops : list op) : list val :=
   match ops with
   | [] => []
   | o :: rest =>
-      let (s1, r) := sq_step s o in
+      let (s1, r) := sq_step v s o in
       if obs_every || negb (nonempty rest) then
         let (s2, live) := q_snapshot s1 in
         let fresh := snd (q_snapshot (sq_reopen s2 MR)) in
-        VL [res_val r; live; if val_eqb fresh live then VN else fresh] :: run_sql obs_every s2 rest
-      else VL [res_val r; VN; VN] :: run_sql obs_every s1 rest
+        VL [res_val r; live; if val_eqb fresh live then VN else fresh] :: run_sql v obs_every s2 rest
+      else VL [res_val r; VN; VN] :: run_sql v obs_every s1 rest
   end.
 
-(** a case: (directory store?, suffix, initial mode, observe after every op?, history) *)
-Definition run_case (c : bool * list Z * mode * bool * list op) : val :=
-  let '(isdir, sfx, m, obs_every, ops) := c in
-  if isdir then VL (run_dir obs_every (ds_new sfx m) ops)
-  else VL (run_sql obs_every (sq_new m) ops).
+(** a case: (variant of the code, directory store?, suffix, initial mode, observe after every op?, history) *)
+Definition run_case (c : variant * bool * list Z * mode * bool * list op) : val :=
+  let '(v, isdir, sfx, m, obs_every, ops) := c in
+  if isdir then VL (run_dir v obs_every (ds_new sfx m) ops)
+  else VL (run_sql v obs_every (sq_new m) ops).
